@@ -25,6 +25,7 @@ func (c04) RequiredBuckets(tier string) []string {
 	for _, k := range []string{"point", "site", "range", "prange", "ambiguous", "join", "order", "c-range", "c-join"} {
 		out = append(out, "kind|"+k)
 	}
+	out = append(out, "cmd:rotate", "cmd:split", "topology:circular", "stream:records-independent")
 	return out
 }
 
@@ -397,4 +398,6 @@ func (m c04) Run(c *fw.Ctx) {
 		m.check(c, kind, tab, hostB, n)
 		m.laws(c, kind, tab, hostB, n, b)
 	}
+	// the commands the property names as observation points, on the real binary.
+	c15Drive(c, []c15cmd{{"rotate", nil}, {"split", nil}, {"rotate", nil}}, c.Pick(90, 3000))
 }
